@@ -122,10 +122,78 @@ static void roundtrip(hwloc_topology_t t)
   }
 }
 
-int main(void)
+/* "memory attached symmetrically", stated independently: all objects at the depth of a NUMA node's parent
+ * have the same number of memory children */
+static int mem_symmetric(hwloc_topology_t t)
 {
+  hwloc_obj_t n;
+  for (n = hwloc_get_obj_by_type(t, HWLOC_OBJ_NUMANODE, 0); n; n = n->next_cousin) {
+    int d = n->parent->depth; unsigned i, nb = hwloc_get_nbobjs_by_depth(t, d);
+    for (i = 0; i < nb; i++) if (hwloc_get_obj_by_depth(t, d, i)->memory_arity != n->parent->memory_arity) return 0;
+  }
+  return 1;
+}
+
+/* export contract outside the symmetric case: -1/EINVAL and no memory error */
+static void export_errors(hwloc_topology_t t)
+{
+  hwloc_topology_t t0, t3; unsigned long flags; int r, which;
+  char small[8];
+  /* not loaded */
+  hwloc_topology_init(&t0); errno = 0;
+  r = hwloc_topology_export_synthetic(t0, small, sizeof(small), 0);
+  printf("rt f=100 %s\n", (r == -1 && errno == EINVAL) ? "ok notloaded" : "FAIL notloaded-accepted");
+  hwloc_topology_destroy(t0);
+  /* unknown flag bits */
+  for (which = 0; which < 3; which++) {
+    unsigned long bad = which == 0 ? 16UL : which == 1 ? (1UL << 40) | 2UL : ~0UL;
+    errno = 0; r = hwloc_topology_export_synthetic(t, small, sizeof(small), bad);
+    printf("rt f=%d %s\n", 101 + which, (r == -1 && errno == EINVAL) ? "ok badflags" : "FAIL badflags-accepted");
+  }
+  /* asymmetric variants: drop the last PU; drop the first NUMA node */
+  for (which = 0; which < 2; which++) {
+    int sym, msym, err, bad = 0;
+    if (hwloc_topology_dup(&t3, t) < 0) continue;
+    if (which == 0) {
+      hwloc_bitmap_t set = hwloc_bitmap_dup(hwloc_topology_get_topology_cpuset(t3));
+      if (hwloc_bitmap_weight(set) < 2) { hwloc_bitmap_free(set); hwloc_topology_destroy(t3); continue; }
+      hwloc_bitmap_clr(set, hwloc_bitmap_last(set));
+      err = hwloc_topology_restrict(t3, set, 0);
+      hwloc_bitmap_free(set);
+    } else {
+      hwloc_bitmap_t set = hwloc_bitmap_dup(hwloc_topology_get_topology_nodeset(t3));
+      if (hwloc_bitmap_weight(set) < 2) { hwloc_bitmap_free(set); hwloc_topology_destroy(t3); continue; }
+      hwloc_bitmap_clr(set, hwloc_bitmap_first(set));
+      err = hwloc_topology_restrict(t3, set, HWLOC_RESTRICT_FLAG_BYNODESET);
+      hwloc_bitmap_free(set);
+    }
+    if (err < 0) { printf("rt f=%d ok restrict-refused\n", 110 + which); hwloc_topology_destroy(t3); continue; }
+    sym = hwloc_get_root_obj(t3)->symmetric_subtree; msym = mem_symmetric(t3);
+    for (flags = 0; flags < 16 && !bad; flags++) {
+      int ignmem = !!(flags & HWLOC_TOPOLOGY_EXPORT_SYNTHETIC_FLAG_IGNORE_MEMORY), v1 = !!(flags & HWLOC_TOPOLOGY_EXPORT_SYNTHETIC_FLAG_V1);
+      int n;
+      errno = 0; n = hwloc_topology_export_synthetic(t3, NULL, 0, flags);
+      if (n < 0 && errno != EINVAL) { printf("rt f=%lu FAIL asym%d-errno-%d\n", flags, which, errno); bad = 1; }
+      else if ((!sym || (!ignmem && !msym)) && n >= 0) { printf("rt f=%lu FAIL asym%d-exported sym=%d msym=%d\n", flags, which, sym, msym); bad = 1; }
+      else if (sym && !v1 && (ignmem || msym) && n < 0) { printf("rt f=%lu FAIL asym%d-refused sym=%d msym=%d\n", flags, which, sym, msym); bad = 1; }
+      else if (n >= 0) {
+        char *b = malloc(n + 1); int r2 = hwloc_topology_export_synthetic(t3, b, n + 1, flags);
+        if (r2 != n || strlen(b) != (size_t)n) { printf("rt f=%lu FAIL asym%d-contract\n", flags, which); bad = 1; }
+        free(b);
+      }
+    }
+    if (!bad) printf("rt f=%d ok asym sym=%d msym=%d\n", 110 + which, sym, msym);
+    hwloc_topology_destroy(t3);
+  }
+}
+
+int main(int argc, char **argv)
+{
+  int verbose = argc > 1 && !strcmp(argv[1], "--verbose");
   static char line[1 << 20];
-  setvbuf(stdout, NULL, _IOFBF, 1 << 16);
+  if (verbose) {   /* HWLOC_SYNTHETIC_VERBOSE messages interleaved with the case lines on stdout */
+    setenv("HWLOC_SYNTHETIC_VERBOSE", "1", 1); dup2(1, 2); setvbuf(stdout, NULL, _IOLBF, 1 << 16);
+  } else setvbuf(stdout, NULL, _IOFBF, 1 << 16);
   while (fgets(line, sizeof(line), stdin)) {
     char id[64], mode[8]; int off = 0; size_t n, i; char *hex, *desc; hwloc_topology_t t; int rc, e;
     if (sscanf(line, "%63s %7s %n", id, mode, &off) < 2) continue;
@@ -136,12 +204,28 @@ int main(void)
     printf("CASE %s\n", id); fflush(stdout);
     hwloc_topology_init(&t); set_filters(t);
     errno = 0;
+    if (mode[0] == 'e') {
+      /* the documented alternative: HWLOC_COMPONENTS=synthetic + HWLOC_SYNTHETIC=<description>, no set_synthetic() */
+      setenv("HWLOC_COMPONENTS", "synthetic,stop", 1);
+      if (mode[1] != 'n') setenv("HWLOC_SYNTHETIC", desc, 1);
+      rc = hwloc_topology_load(t); e = errno;
+      printf("envload rc=%d\n", rc);
+      if (rc == 0) {
+        const char *b = hwloc_get_info_by_name(hwloc_topology_get_infos(t), "Backend");
+        printf("backend %s\n", b ? b : "-");
+        printf("loaded\n"); print_objects(t);
+      }
+      unsetenv("HWLOC_COMPONENTS"); unsetenv("HWLOC_SYNTHETIC");
+      hwloc_topology_destroy(t); free(desc);
+      printf("END %s\n", id); fflush(stdout);
+      continue;
+    }
     rc = hwloc_topology_set_synthetic(t, desc); e = errno;
     if (rc < 0 && e != EINVAL) printf("set rc=%d errno=%d\n", rc, e); else printf("set rc=%d\n", rc);
     fflush(stdout);
     if (rc == 0 && mode[0] == 'l') {
       if (hwloc_topology_load(t) < 0) printf("load-fails errno=%d\n", errno);
-      else { printf("loaded\n"); print_objects(t); fflush(stdout); roundtrip(t); }
+      else { printf("loaded\n"); print_objects(t); fflush(stdout); roundtrip(t); export_errors(t); }
     }
     hwloc_topology_destroy(t);
     free(desc);
